@@ -63,13 +63,13 @@ def plan(tier, seed):
                 for comp in (True, False):
                     for rep in range(12):
                         items.append(["config", f, D, C, dt, comp, rep])
-    items += [["flow", f, D, a, r] for f in FORMATS for D in (2, 3) for a in AXES for r in range(1 if tier == "quick" else 12)]
+    items += [["flow", f, D, a, r] for f in FORMATS for D in (2, 3) for a in AXES for r in range(2 if tier == "quick" else 12)]
     items += [["sequence", D, r] for D in (2, 3) for r in range(4 if tier == "quick" else 120)]
     return items
 
 
 def mandatory(tier):
-    return [f"format/{f}" for f in FORMATS] + [f"dtype/{d}" for d in DTYPES] + ["D/2", "D/3", "C/1", "C/2", "C/3", "compress/True", "compress/False", "flow", "sitk_reads_deepali", "deepali_reads_sitk", "meta_bytes", "header_text", "sequence", "noncontiguous_input", "singleton_axis", "singleton_axis/nifti/C1", "singleton_axis/other/C1"]
+    return [f"format/{f}" for f in FORMATS] + [f"dtype/{d}" for d in DTYPES] + ["D/2", "D/3", "C/1", "C/2", "C/3", "compress/True", "compress/False", "flow", "sitk_reads_deepali", "deepali_reads_sitk", "meta_bytes", "header_text", "sequence", "noncontiguous_input", "flow/default_axes", "singleton_axis", "singleton_axis/nifti/C1", "singleton_axis/other/C1"]
 
 
 class KeyCtx:
@@ -253,7 +253,14 @@ def flow_item(ctx, fmt, D, axes, rep):
     shape = tuple(p["size"][::-1])
     world = rng.normal(size=shape + (D,)).astype(np.float32).astype(np.float64)
     data = np.moveaxis(ref.vectors(world, WORLD, axes), -1, 0)
-    ff = FlowField(torch.tensor(data, dtype=torch.float32), g, Axes(axes))
+    own = "cube_corners" if g.align_corners() else "cube"
+    if rep % 2 == 1 and axes == own:
+        # axes left out: the documented default is the cube convention of the field's own grid
+        ff = FlowField(torch.tensor(data, dtype=torch.float32), g)
+        ctx.bucket("flow/default_axes")
+        ctx.bucket(f"flow/default_axes/align_corners={g.align_corners()}")
+    else:
+        ff = FlowField(torch.tensor(data, dtype=torch.float32), g, Axes(axes))
     info = dict(format=fmt, D=D, axes=axes)
     ctx.nontriv(info, p)
     kind = f"flow/{fmt}/D{D}"
